@@ -175,7 +175,9 @@ impl<'a> AnnotationCsv<'a> {
                 for subselector in subselectors {
                     out.push(';'); //delimiter
                     match subselector {
-                        Selector::RangedTextSelector { .. } => {
+                        Selector::RangedTextSelector { .. }
+                        | Selector::RangedAnnotationSelector { .. } => {
+                            //every member of the range takes a slot, in every column
                             for (i, subselector) in subselector.iter(store, false).enumerate() {
                                 if i > 0 {
                                     out.push(';');
@@ -215,6 +217,13 @@ impl<'a> AnnotationCsv<'a> {
                                 store.get(*dataset).expect("dataset must exist");
                             out += dataset.id().expect("dataset must have an id");
                         }
+                        Selector::RangedTextSelector { .. }
+                        | Selector::RangedAnnotationSelector { .. } => {
+                            //every member of the range takes an (empty) slot in this column too
+                            for _ in subselector.iter(store, false).skip(1) {
+                                out.push(';');
+                            }
+                        }
                         _ => {}
                     }
                 }
@@ -249,6 +258,13 @@ impl<'a> AnnotationCsv<'a> {
                             let key: &DataKey =
                                 dataset.get(*key).expect("key must exist");
                             out += key.id().expect("key must have an id");
+                        }
+                        Selector::RangedTextSelector { .. }
+                        | Selector::RangedAnnotationSelector { .. } => {
+                            //every member of the range takes an (empty) slot in this column too
+                            for _ in subselector.iter(store, false).skip(1) {
+                                out.push(';');
+                            }
                         }
                         _ => {}
                     }
@@ -291,6 +307,13 @@ impl<'a> AnnotationCsv<'a> {
                                 out += data.temp_id().expect("temp_id must succeed").as_str();
                             }
                         }
+                        Selector::RangedTextSelector { .. }
+                        | Selector::RangedAnnotationSelector { .. } => {
+                            //every member of the range takes an (empty) slot in this column too
+                            for _ in subselector.iter(store, false).skip(1) {
+                                out.push(';');
+                            }
+                        }
                         _ => {}
                     }
                 }
@@ -321,7 +344,9 @@ impl<'a> AnnotationCsv<'a> {
                 for subselector in subselectors {
                     out.push(';'); //delimiter
                     match subselector {
-                        Selector::RangedAnnotationSelector { .. } => {
+                        Selector::RangedTextSelector { .. }
+                        | Selector::RangedAnnotationSelector { .. } => {
+                            //every member of the range takes a slot, in every column
                             for (i, subselector) in subselector.iter(store, false).enumerate() {
                                 if i > 0 {
                                     out.push(';');
